@@ -36,6 +36,7 @@ theorem OTy.check_of_valid (O : Oracles) (site : Str) {ty : OTy} {v : WVal}
   | listStr => cases v <;> simp_all [OTy.valid, OTy.check]
   | dict => cases v <;> simp_all [OTy.valid, OTy.check, WVal.isDict]
   | uri fl => simp_all [OTy.valid, OTy.check, checkUri]
+  | strUri n => cases v <;> simp_all [OTy.valid, OTy.check, checkUri, uriOk]
   | forwardFor atParse =>
     cases v <;> simp_all [OTy.valid, OTy.check]
     cases atParse <;> simp_all
@@ -71,6 +72,11 @@ theorem OTy.valid_of_check (O : Oracles) (site : Str) {ty : OTy} {v w : WVal}
   | uri fl =>
     simp only [OTy.check, checkUri, fail] at h
     split at h <;> simp_all [OTy.valid]
+  | strUri n =>
+    cases v <;> simp_all [OTy.valid, OTy.check, checkUri, uriOk, fail]
+    all_goals first
+      | (cases hc : O.uriCheck false false false _ <;> simp_all)
+      | (split at h <;> simp_all)
   | forwardFor atParse =>
     cases v <;> simp_all [OTy.valid, OTy.check, fail]
     split at h <;> simp_all
